@@ -78,7 +78,7 @@ def main():
         ],
         "checks": checks,
         "not_applicable": [],
-        "notes": "All 20 properties are claimed for the structural clauses listed per property in DESIGN.md section 5 and nothing more; section 9 lists what stays undecided. Thirty-one genuine defects of the pinned tree (D1-D31) were repaired by unguarded 'fix:' commits in /repo (known_findings.json lists them as fixed; they suppress nothing); one genuine defect that the pinned tests do not allow to repair (F1, C07: speculative visit of the element and filter expressions of a comprehension) is listed there as known and is reported by the C07 check as KNOWN-FINDING lines. Exit codes: 0 held, 1 VIOLATION, 2 ANALYSIS-ERROR.",
+        "notes": "All 20 properties are claimed for the structural clauses listed per property in DESIGN.md section 5 and nothing more; section 9 lists what stays undecided. Thirty-two genuine defects of the pinned tree (D1-D32) were repaired by unguarded 'fix:' commits in /repo (known_findings.json lists them as fixed; they suppress nothing); one genuine defect that the pinned tests do not allow to repair (F1, C07: speculative visit of the element and filter expressions of a comprehension) is listed there as known and is reported by the C07 check as KNOWN-FINDING lines. Exit codes: 0 held, 1 VIOLATION, 2 ANALYSIS-ERROR.",
     }
     with open(os.path.join(HERE, "MANIFEST.json"), "w") as fid:
         json.dump(manifest, fid, indent=1)
